@@ -9,12 +9,15 @@ ORDINARY = ["interface", "GigabitEthernet0/1", "description", "uplink", "to", "c
             "vlan", "ip", "address", "route", "neighbor", "remote-as", "permit", "any", "eq", "www", "access-list", "version", "15.2", "hostname",
             "lab_sw-01", "set", "system", "ntp", "server", "logging", "host", "snmp", "location", "Building(7)", "rack#4", "speed", "auto"]
 V4_OK = ["1.2.3.4", "10.0.0.1", "192.168.1.77", "172.16.5.200", "8.8.8.8", "001.021.201.012", "1.2.3.040", "0.0.0.1", "223.255.255.254", "100.64.0.9",
-         "203.0.113.77", "0255.000255.1.0001", "11.22.33.44/24", "10.1.1.0/030", "11.12.13.14/8"]
-V4_MASK = ["255.255.255.0", "0.0.0.255", "255.255.255.255", "0.0.0.0", "255.254.0.0", "0.0.63.255", "128.0.0.0", "255.255.255.000", "000.000.000.255", "255.255.0254.0", "000.0.0.0"]
+         "203.0.113.77", "0255.000255.1.0001", "11.22.33.44/24", "10.1.1.0/030", "11.12.13.14/8",
+         "10.1.1.17/configs", "tftp://10.1.1.18/r1.cfg", "172.20.5.9/", "11.22.33.45/x", "user@192.0.2.33/var", "11.22.33.46/-", "11.22.33.47//"]
+V4_MASK = ["255.255.255.0", "0.0.0.255", "255.255.255.255", "0.0.0.0", "255.254.0.0", "0.0.63.255", "128.0.0.0", "255.255.255.000", "000.000.000.255", "255.255.0254.0", "000.0.0.0",
+           "255.255.255.0/24", "224.0.0.0/4", "240.0.0.0/4", "128.0.0.0/1", "192.0.0.0/2", "255.255.255.255/32", "0.0.0.3/32", "0.0.0.0/0", "255.0.0.0/8"]
 V4_NEAR = ["1.2.3", "1.2.3.4.5", "1.256.3.4", "x1.2.3.4", "1.2.3.4x", "1.2.3.256", "1..2.3", "1.2.3.4.", ".1.2.3.4", "1.2.3.2555", "v1.2.3.4-b", "a.b.c.d", "1.2.3.4_5", "1.2.3.٣"]
 V6_OK = ["2001:db8::1", "fe80::1", "::1", "::", "2001:0db8:0000:0000:0000:ff00:0042:8329", "2001:DB8::FFFF", "1:2:3:4:5:6:7:8", "1::", "1:2::8", "ff02::1:ff00:1234",
          "2001:db8::1/64", "::/0", "fc00::abcd/7", "2607:f8b0:4005:805::200e", "0:0:0:0:0:0:0:1", "1::1"]
-V6_TAIL = ["::ffff:1.2.3.4", "64:ff9b::10.0.0.1", "1:2:3:4::1.2.3.4", "::1.2.3.4", "::ffff:0:192.168.1.1"]
+V6_TAIL = ["::ffff:1.2.3.4", "64:ff9b::10.0.0.1", "1:2:3:4::1.2.3.4", "::1.2.3.4", "::ffff:0:192.168.1.1",
+           "::FFFF:1.2.3.5", "::FfFf:0:192.168.1.2", "64:FF9B::10.0.0.2", "::Ffff:9.8.7.6"]
 V6_TAIL_UNLISTED = ["1::2:1.2.3.4", "1:2:3:4:5:6:1.2.3.4", "2001:db8::a:10.1.2.3"]
 V6_NEAR = ["1:2:3:4:5:6:7", "1:2:3:4:5:6:7:8:9", "12345::1", "g::1", "1::2::3", "00:11:22:33:44:55", "0011.2233.4455", "x2001:db8::1", "2001:db8::1x", "fe80:%x", ":::", "1:::2", "ab:cd", ":1"]
 DELIMS = [" ", "  ", "\t", ",", ";", "(", ")", "[", "]", "{", "}", "\"", "'", "=", "<", ">", "|", "#", "!", "@", "-", "_", "/", "\\", "*", "+", "~", "?"]
